@@ -140,6 +140,22 @@ P("C19",
                "sub-parameter constructors whose effort argument is unused may accept any effort; they must not invoke UB"])
 
 
+P("C15",
+  rc={"quick": (8, 40000, 100, 2), "thorough": (12, 400000, 100, 2)},
+  exh={"quick": 8, "thorough": 16},
+  budget={"quick": 120, "thorough": 1500},
+  rule="(a) Row::freespace on a generated row (3 coordinate scales up to 2^22, 4 orientations) and 0..6 obstacle "
+       "rectangles drawn from classes inside / partial height / touching an edge / enclosing / degenerate / sticking "
+       "out / anywhere; (b) Circuit::computeRows(extra) on 1..4 row levels (split rows, gaps) with 1..8 cells of any "
+       "fixed x obstruction flag combination and any of the 8 orientations plus 0..2 extra obstacles. Oracle: sweep "
+       "over blocked column ranges. non-trivial = an obstacle covers the row height only partially or two blocked "
+       "ranges touch (for (b) additionally a movable or non-obstruction cell is present); distinct = hash of the case. "
+       "Exhaustive part: row [0,4)x[0,2), all 420 grid rectangles on [-1,5]x[-1,3] incl. degenerate ones: every single "
+       "and unordered pair (quick), every unordered triple (thorough).",
+  assumptions=["obstacle rectangles have minX<=maxX and minY<=maxY (sizes are non-negative)",
+               "maximality of the returned segments is not required, only the covered column set"])
+
+
 # ----------------------------------------------------------------------------
 def sh(cmd, **kw):
     return subprocess.run(cmd, stdout=subprocess.PIPE, stderr=subprocess.STDOUT, text=True, **kw)
